@@ -141,3 +141,43 @@ Definition amo_root_xfer (fixed : bool) (proto : N) (r : amo_root) (ws : list (l
   end.
 
 End ArchiveMode.
+
+(* ------------------------------------------------------------------------------------ *)
+(* The archive stream as a source file: what sendCompressFlag decides for it.
+   isCompressFixed is interpreted from the regenerated decision list (the same list C01's
+   Transfer.v interprets: kind 0 = protocol < v, 1 = compress type = v, 2 = size < v; value
+   0 = no, 1 = yes, 2 = "not binary").  When nothing is fixed, isCompressionProfitable asks
+   the reader for its underlying file; the archive reader has none (getFile returns a nil
+   *os.File) and the guard `file == nil` answers without reading a byte of the stream -
+   provided the compared variable has the pointer type (Consts.archive_probe_guard_fires);
+   otherwise the probe seeks on the nil file and sendCompressFlag fails. *)
+Definition amo_rule_cond (kind value proto ctype size : N) : bool :=
+  if kind =? 0 then proto <? value
+  else if kind =? 1 then ctype =? value
+  else if kind =? 2 then size <? value
+  else false.
+Definition amo_comp_val (v : N) (binary : bool) : bool :=
+  if v =? 0 then false else if v =? 1 then true else negb binary.
+Fixpoint amo_rules_eval (rules : list (N * N * bool * N)) (proto ctype : N) (binary : bool) (size : N) : bool * bool :=
+  match rules with
+  | [] => (fst Consts.tr_compress_default, amo_comp_val (snd Consts.tr_compress_default) binary)
+  | (k, v, fx, cv) :: r =>
+    if amo_rule_cond k v proto ctype size then (fx, amo_comp_val cv binary)
+    else amo_rules_eval r proto ctype binary size
+  end.
+
+Inductive amo_comp :=
+| AmoCompFixed (c : bool)        (* decided by the configuration and the size: no COMP line *)
+| AmoCompProbed (c : bool)       (* decided by isCompressionProfitable: a COMP line is sent *)
+| AmoCompErr.                    (* "Compression detect failed" *)
+
+(* sendCompressFlag on an archive reader whose announced size is [size]; the stream itself
+   is not an argument: the decision cannot depend on it, nor move it *)
+Definition amo_archive_compress (proto ctype : N) (binary : bool) (size : N) : amo_comp :=
+  match amo_rules_eval Consts.tr_compress_rules proto ctype binary size with
+  | (true, c) => AmoCompFixed c
+  | (false, _) =>
+    if Consts.archive_reader_file_nil && Consts.archive_probe_guard_fires
+    then AmoCompProbed Consts.archive_probe_nofile_compress
+    else AmoCompErr
+  end.
